@@ -13,6 +13,11 @@ instance.  What is replaced (assumed contracts, DESIGN 2.6):
                 first secant call raise RuntimeError (drives the bracketing fall-back branch).
                 flx.wegstein returns x* with callback(x*) == x* (a concrete start value that already is a fixed
                 point is returned: A-root-stay).
+                A-root has a requires side, which the code under check must establish at every call (an obligation of
+                its own, "IQ_interpolation#n requires: ..."): the residuals y0, y1 handed to the bracketing solver
+                flx.IQ_interpolation(f, x0, x1, y0, y1, ..) are the values the callback f returned at the bracket ends
+                x0 resp. x1 (with the arguments of this call).  Without it "returns a root" is not what flexsolve
+                promises (it walks to an end of the bracket), so no sentence about the fall-back branch would be proved.
   A-models      Psat_k(T), Tsat_k(P), gamma_k(x, T), phi_k(y, T, P), pcf_k(T, P) are uninterpreted positive
                 functions (gamma/phi take the composition in a canonical order of the chemicals, i.e. the models are
                 assumed to be equivariant under permutation of the chemical list; C16 looks at that).
@@ -112,6 +117,7 @@ class Env:
         self.cfg = cfg
         self.n = 0
         self.saved = []
+        self.evals = []          # (solver object, residual method name, point, other arguments, value returned) in call order
 
     def leaf(self, tag, **kw):
         self.n += 1
@@ -280,7 +286,33 @@ class StubFlx:
 
     def IQ_interpolation(self, f, x0, x1, y0=None, y1=None, x=None, xtol=0., ytol=5e-8, args=(), maxiter=50,
                          checkroot=False, checkiter=True, checkbounds=True):
+        self._bracket_requires(f, x0, x1, y0, y1, args)
         return self._scalar_root('IQ_interpolation', f, args)
+
+    def _bracket_requires(self, f, x0, x1, y0, y1, args):
+        """
+        Requires side of A-root for the bracketing solver: a residual handed over for a bracket end is the value the
+        callback returned AT that end with the arguments of this call (flexsolve does not evaluate the callback there
+        again).  The evaluations the code under check made are observed (Harness wraps the residual methods); a callback
+        that is not observed is evaluated here (A-root allows evaluations at arbitrary points before the root).
+        """
+        w = self.env.w
+        n = self.counts.get('IQ_interpolation', 0)
+        owner = getattr(f, '__self__', None); name = getattr(f, '__name__', None)
+        args = tuple(args)
+        for xn, xb, yn, yb in (('x0', x0, 'y0', y0), ('x1', x1, 'y1', y1)):
+            if yb is None: continue          # flexsolve evaluates the callback itself
+            seen = [(a, r) for (o, nm, a, rest, r) in self.env.evals
+                    if o is owner and nm == name and len(rest) == len(args) and all(p is q for p, q in zip(rest, args))]
+            if not seen:
+                g = getattr(self.env, 'gamma_stub', None)
+                rec = getattr(g, 'recording', None)
+                if rec is not None: g.recording = False
+                try: seen = [(xb, f(xb, *args))]
+                finally:
+                    if rec is not None: g.recording = rec
+            w.ensure(f'{self.tag}IQ_interpolation#{n} requires: {yn} is the residual the callback returned at the bracket end {xn}',
+                     w.Or(*[w.And(same_point(w, a, xb), w.eq(r, yb)) for a, r in seen], False))
 
     def wegstein(self, f, x, xtol=5e-8, args=(), maxiter=50, checkiter=True, checkconvergence=True, convergenceiter=0):
         w = self.env.w
@@ -321,6 +353,21 @@ SOLVERS = {'Ty': ('bubble', 'solve_Ty', 'P'), 'Py': ('bubble', 'solve_Py', 'T'),
            'Tx': ('dew', 'solve_Tx', 'P'), 'Px': ('dew', 'solve_Px', 'T')}
 
 
+RESIDUALS = ('_T_error', '_P_error', '_T_error_ideal', '_T_error_reactive', '_P_error_reactive')
+
+
+def _observed(env, name, method):
+    """The residual method itself, with every evaluation (point, other arguments, value) noted in env.evals."""
+    def residual(self, v, *args):
+        r = method(self, v, *args)
+        env.evals.append((self, name, v, args, r))
+        return r
+    residual.__name__ = name
+    residual.__qualname__ = getattr(method, '__qualname__', name)
+    residual.__doc__ = method.__doc__
+    return residual
+
+
 def _tsat_stub(env):
     def Tsat(self, P, Tguess=None, Tmin=None, Tmax=None, *, check_validity=True):
         return ufn(env.w, f'Tsat.{self.ID}')(P)
@@ -346,7 +393,11 @@ class Harness:
         if not getattr(env, 'tsat_patched', False):
             env.patch(tmo.Chemical, 'Tsat', _tsat_stub(env))
             env.tsat_patched = True
-        if cfg.get('gamma', 'stub') == 'stub': pt.gamma = StubGamma(env, IDs)
+        if kind not in getattr(env, 'observed', ()):
+            env.observed = getattr(env, 'observed', ()) + (kind,)
+            for nm in RESIDUALS:
+                if nm in cls.__dict__: env.patch(cls, nm, _observed(env, nm, cls.__dict__[nm]))
+        if cfg.get('gamma', 'stub') == 'stub': pt.gamma = env.gamma_stub = StubGamma(env, IDs)
         if cfg.get('phi', 'stub') == 'stub': pt.phi = StubPhi(env, IDs)
         if cfg.get('pcf', 'stub') == 'stub': pt.pcf = StubPCF(env, IDs)
         self.frame0 = self._frame()
@@ -402,6 +453,13 @@ def _vec(v, n):
 def ge_exact(w, a, b):
     """a >= b; natively without the tolerance of w.ge (thresholds such as 1e-16 / 1e-32 are far below it)."""
     return w.ge(a, b) if w.symbolic else float(a) >= float(b)
+
+
+def same_point(w, a, b):
+    """a == b for arguments of a callback; two concrete values are compared exactly (the native w.eq is relative to the
+    largest magnitude of the run, 1e12 Pa model values would make Tmin 'equal' to Tmax)."""
+    if _is_sym(a) or _is_sym(b): return w.eq(a, b)
+    return float(a) == float(b)
 
 
 def _total(xs):
